@@ -49,7 +49,7 @@ Qed.
 (* pinned code: client 2's create succeeds, its mapping is never deleted, yet the late second delete of mapping 1
    removes client 2's index entry: the name resolves to nothing and is claimable by a third party *)
 Lemma pinned_delete_reclaim_refuted :
-  let s := drun false true false none_legacy none_legacy empty_store race_threads race_sched_pinned in
+  let s := drun false true false true none_legacy none_legacy empty_store race_threads race_sched_pinned in
   map out (snd s) = [[RDeleted; RCreated 1]; [RDeleted]; [RCreated 2]; [RErr ENotFound]] /\
   recs (fst s) 2 = Some {| r_name := host_a; r_client := 2; r_target := 22; r_status := StActive; r_exp := 0 |} /\
   idx (fst s) host_a = None /\
@@ -58,7 +58,7 @@ Proof. vm_compute. repeat split; reflexivity. Qed.
 
 (* the same callers on the repaired code, same race: the late delete finds the index pointing elsewhere and leaves it *)
 Lemma fixed_delete_reclaim_run :
-  let s := drun true true true none_legacy none_legacy empty_store race_threads race_sched_fixed in
+  let s := drun true true true true none_legacy none_legacy empty_store race_threads race_sched_fixed in
   map out (snd s) = [[RDeleted; RCreated 1]; [RDeleted]; [RCreated 2]; [RRouted 1 host_a_port 2 2 22]] /\
   idx (fst s) host_a = Some 2 /\
   stale_release (log (fst s)) = false.
@@ -71,7 +71,7 @@ Definition dup_sched : list nat := [0;1;0;1; 0;0;0; 1;1;1; 2;2]%nat.
 
 (* both creates draw id 1; client 2's record overwrites client 1's; "a.t.io" — claimed by client 1 — routes to client 2 *)
 Lemma nonatomic_incr_refuted :
-  let s := drun true false false none_legacy none_legacy empty_store dup_threads dup_sched in
+  let s := drun true false false true none_legacy none_legacy empty_store dup_threads dup_sched in
   map out (snd s) = [[RCreated 1]; [RCreated 1]; [RRouted 1 host_a 1 2 22]] /\
   In (EvClaim host_a 1 1) (log (fst s)).
 Proof. vm_compute. split; [reflexivity|]. repeat (first [left; reflexivity | right]). Qed.
@@ -83,7 +83,7 @@ Definition reset_threads : list thr :=
 Definition reset_sched : list nat := [0;0;0;0; 1; 2;2;2;2; 3;3]%nat.
 
 Lemma counter_reset_refuted :
-  let s := drun true true false none_legacy none_legacy empty_store reset_threads reset_sched in
+  let s := drun true true false true none_legacy none_legacy empty_store reset_threads reset_sched in
   map out (snd s) = [[RCreated 1]; [RReset]; [RCreated 1]; [RRouted 1 host_a 1 2 22]] /\
   In (EvClaim host_a 1 1) (log (fst s)).
 Proof. vm_compute. split; [reflexivity|]. repeat (first [left; reflexivity | right]). Qed.
@@ -92,7 +92,7 @@ Proof. vm_compute. split; [reflexivity|]. repeat (first [left; reflexivity | rig
    passing the default data TTL changes nothing, the second create draws id 2 and "a.t.io" still routes to client 1 *)
 Definition reset_sched_fixed : list nat := [0;0;0;0;0; 1; 2;2;2;2;2; 3;3]%nat.
 Lemma counter_reset_harmless_run :
-  let s := drun true true true none_legacy none_legacy empty_store reset_threads reset_sched_fixed in
+  let s := drun true true true true none_legacy none_legacy empty_store reset_threads reset_sched_fixed in
   map out (snd s) = [[RCreated 1]; [RReset]; [RCreated 2]; [RRouted 1 host_a 1 1 11]] /\
   cttl (fst s) = false /\ next (fst s) = 2.
 Proof. vm_compute. repeat split; reflexivity. Qed.
@@ -110,7 +110,7 @@ Definition cleanup_sched : list nat :=
   (repeat 0 7 ++ repeat 1 5 ++ [2; 3] ++ repeat 2 12 ++ repeat 3 1 ++ repeat 2 2 ++ repeat 4 4)%nat.
 
 Lemma cleanup_run :
-  let s := drun true true true none_legacy none_legacy empty_store cleanup_threads cleanup_sched in
+  let s := drun true true true true none_legacy none_legacy empty_store cleanup_threads cleanup_sched in
   map out (snd s) = [[RUpdated; RCreated 1]; [RCreated 2]; [RErr EValidation; RCleaned 1; RErr EForbidden];
                      [RDeleted; RErr EForbidden]; [RRouted 1 (full_domain nm_b nm_base) 2 2 22; RErr ENotFound]] /\
   idx (fst s) host_a = None /\ idx (fst s) (full_domain nm_b nm_base) = Some 2 /\ recs (fst s) 1 = None /\
@@ -124,7 +124,7 @@ Section Solo.
   Fixpoint solo (k : nat) (t : thr) (s : shared) : thr * shared :=
     match k with
     | O => (t, s)
-    | S k' => let '(t', s') := dstep true true true reg cloud t s in solo k' t' s'
+    | S k' => let '(t', s') := dstep true true true true reg cloud t s in solo k' t' s'
     end.
 
   Lemma delete_alone c i m rest h o s :
@@ -143,4 +143,173 @@ Section Solo.
     split; [reflexivity|]. split; [apply upd_name_same|]. split; [apply upd_n_same|]. split; [apply upd_n_same|].
     split; [reflexivity|]. split; [intros n Hn; now apply upd_name_other|intros j Hj; now apply upd_n_other].
   Qed.
+
+  (* ---- deletion under storage failures: ANY fault pattern, ANY number of retries ------------------------------------
+     The owner (client c) runs nothing but DeleteMapping(i) — as many retries as it likes — alone on a store in which
+     mapping i holds the name n.  Invariant: while the index still points at i the record is still there (the record
+     is deleted last), and whenever a delete has reported success the index has no entry for n. *)
+  Definition all_delete (i : id) (o : list op) : Prop := forall x, In x o -> x = ODelete (Abs i).
+
+  Definition pcI (c : client) (i : id) (n : name) (s : shared) (p : pcT) : Prop :=
+    match p with
+    | Idle => True
+    | PCRm KDel who j n' st e =>
+        who = c /\ j = i /\ n' = n /\ (st = RmDelIdx -> idx s n = Some i) /\
+        (st = RmDelRec -> idx s n = None) /\ (st = RmRelease -> e = None -> idx s n = None)
+    | PCDList j => j = i /\ idx s n = None
+    | _ => False
+    end.
+
+  Definition StI (c : client) (i : id) (n : name) (s : shared) : Prop :=
+    (idx s n = Some i \/ idx s n = None) /\
+    (idx s n = Some i -> exists m, recs s i = Some m) /\
+    (forall m, recs s i = Some m -> r_name m = n /\ r_client m = c).
+
+  Definition TI (c : client) (i : id) (n : name) (t : thr) (s : shared) : Prop :=
+    cl t = c /\ all_delete i (ops t) /\ (In RDeleted (out t) -> idx s n = None) /\ pcI c i n s (pc t).
+
+  Definition SInv (c : client) (i : id) (n : name) (t : thr) (s : shared) : Prop := StI c i n s /\ TI c i n t s.
+
+  Lemma all_delete_tl i o : all_delete i o -> all_delete i (tl o).
+  Proof. intros H x Hx. apply H. destruct o; [exact Hx|now right]. Qed.
+
+  Lemma ti_finish c i n t s s' fs r :
+    TI c i n t s -> (idx s n = None -> idx s' n = None) -> (r = RDeleted -> idx s' n = None) -> TI c i n (finish t fs r) s'.
+  Proof.
+    intros (Hc & Ho & Hout & _) Hm Hr. unfold TI, finish; cbn.
+    split; [exact Hc|split; [now apply all_delete_tl|split; [|exact I]]].
+    intros [E|E]; [now apply Hr|apply Hm, Hout, E].
+  Qed.
+
+  Lemma ti_goto c i n t s s' fs p :
+    TI c i n t s -> (idx s n = None -> idx s' n = None) -> pcI c i n s' p -> TI c i n (goto t fs p) s'.
+  Proof.
+    intros (Hc & Ho & Hout & _) Hm Hp. unfold TI, goto; cbn.
+    split; [exact Hc|split; [exact Ho|split; [|exact Hp]]]. intros E. apply Hm, Hout, E.
+  Qed.
+
+  Lemma sinv_step c i n t s :
+    SInv c i n t s -> SInv c i n (fst (dstep true true true true reg cloud t s)) (snd (dstep true true true true reg cloud t s)).
+  Proof.
+    intros [Hst Hti]. pose proof Hst as (Hidx & Hrec & Hown). pose proof Hti as (Hc & Hops & Hout & Hpc).
+    unfold dstep, decide. destruct (next_fault t) as [f fs].
+    destruct (pc t) as [| | | | | |k who j n' st e| | | | |j| | | | |] eqn:Epc; cbn [pcI] in Hpc; try contradiction.
+    - (* Idle *)
+      destruct (ops t) as [|o rest] eqn:Eo.
+      { cbn [fst snd exec]. split; [exact Hst|]. unfold TI. rewrite Epc, Eo. cbn. repeat split; auto. }
+      assert (Eo' : o = ODelete (Abs i)) by (apply Hops; now left). subst o.
+      cbn [resolve].
+      destruct f; [cbn [fst snd exec]; split; [exact Hst|apply (ti_finish c i n t s s); auto; discriminate]|].
+      destruct (recs s i) as [m|] eqn:Er.
+      + destruct (Hown m eq_refl) as [Hn Hcl].
+        assert (Ez : Z.eqb (r_client m) (cl t) = true) by (rewrite Hcl, Hc; apply Z.eqb_refl). rewrite Ez. cbn [negb fst snd exec].
+        split; [exact Hst|]. apply (ti_goto c i n t s s); auto. cbn. rewrite Hn. repeat split; auto; discriminate.
+      + cbn [fst snd exec]. split; [exact Hst|]. apply (ti_finish c i n t s s); auto. intros _.
+        destruct Hidx as [E|E]; [|exact E]. destruct (Hrec E) as [m Hm]. discriminate.
+    - (* removeMappingKeys *)
+      destruct k as [| |rest0 cnt0]; try contradiction.
+      destruct Hpc as (-> & -> & -> & Hdi & Hdr & Hrl).
+      destruct st.
+      + (* guard *)
+        destruct f; [cbn [fst snd exec rm_end]; split; [exact Hst|apply (ti_finish c i n t s s); auto; discriminate]|].
+        destruct (rguard s i); cbn [fst snd rm_end].
+        * cbn [exec]. split; [exact Hst|apply (ti_finish c i n t s s); auto; discriminate].
+        * split; [exact Hst|]. apply (ti_goto c i n t s); auto. cbn. repeat split; auto; discriminate.
+      + (* Get index *)
+        destruct f; [cbn [fst snd exec]; split; [exact Hst|apply (ti_goto c i n t s s); auto; cbn; repeat split; auto; discriminate]|].
+        destruct (idx s n) as [j|] eqn:Ei.
+        * destruct (N.eqb j i) eqn:Ej.
+          -- apply N.eqb_eq in Ej. subst j. cbn [fst snd exec]. split; [exact Hst|].
+             apply (ti_goto c i n t s s); auto. cbn. rewrite Ei. repeat split; auto; discriminate.
+          -- exfalso. destruct Hidx as [E|E]; [inversion E; subst; rewrite N.eqb_refl in Ej; discriminate|discriminate].
+        * cbn [fst snd exec]. split; [exact Hst|]. apply (ti_goto c i n t s s); auto. cbn. rewrite Ei. repeat split; auto; discriminate.
+      + (* Delete index *)
+        destruct f; [cbn [fst snd exec]; split; [exact Hst|apply (ti_goto c i n t s s); auto; cbn; repeat split; auto; discriminate]|].
+        cbn [fst snd].
+        assert (E' : idx (exec (AUnidx n i c) s) n = None) by (cbn; apply upd_name_same).
+        split.
+        * unfold StI. rewrite E'. split; [now right|split; [discriminate|exact Hown]].
+        * apply (ti_goto c i n t s); auto. cbn [pcI]. repeat split; auto; discriminate.
+      + (* Delete record *)
+        specialize (Hdr eq_refl).
+        destruct f; [cbn [fst snd exec]; split; [exact Hst|apply (ti_goto c i n t s s); auto; cbn; repeat split; auto; discriminate]|].
+        cbn [fst snd]. split.
+        * unfold StI. cbn. rewrite Hdr. split; [now right|split; [discriminate|]].
+          intros m. rewrite upd_n_same. discriminate.
+        * apply (ti_goto c i n t s); auto. cbn. repeat split; auto; discriminate.
+      + (* release the guard *)
+        assert (Hm : forall a, a = ANone \/ a = ADrop i -> idx s n = None -> idx (exec a s) n = None)
+          by (intros a [->| ->]; cbn; auto).
+        assert (Hs' : forall a, a = ANone \/ a = ADrop i -> StI c i n (exec a s)) by (intros a [->| ->]; exact Hst).
+        destruct e as [e|]; cbn [rm_end].
+        * destruct f; cbn [fst snd]; (split; [apply Hs'; auto|apply (ti_finish c i n t s); auto; discriminate]).
+        * specialize (Hrl eq_refl eq_refl).
+          destruct f; cbn [fst snd]; (split; [apply Hs'; auto|apply (ti_goto c i n t s); auto; cbn; auto]).
+    - (* Remove from the client's list *)
+      destruct Hpc as [-> Hnone].
+      destruct f; cbn [fst snd]; (split; [exact Hst|apply (ti_finish c i n t s); auto]).
+  Qed.
+
+  Lemma sinv_solo c i n k : forall t s, SInv c i n t s -> SInv c i n (fst (solo k t s)) (snd (solo k t s)).
+  Proof.
+    induction k as [|k IH]; intros t s H; cbn; [exact H|].
+    pose proof (sinv_step c i n t s H) as H1. destruct (dstep true true true true reg cloud t s) as [t' s']. cbn in H1.
+    now apply IH.
+  Qed.
+
+  (* the theorem: whatever storage calls fail and however often the owner retries, once a delete has reported success
+     the index has no entry for the name *)
+  Theorem delete_success_frees_name c i m o fl h k s :
+    recs s i = Some m -> r_client m = c -> idx s (r_name m) = Some i -> all_delete i o ->
+    let t := {| cl := c; ops := o; faults := fl; pc := Idle; held := h; out := [] |} in
+    In RDeleted (out (fst (solo k t s))) -> idx (snd (solo k t s)) (r_name m) = None.
+  Proof.
+    intros Hr Hc Hi Ho t.
+    assert (H0 : SInv c i (r_name m) t s).
+    { split.
+      - split; [now left|split; [intros _; eauto|]]. intros m0 E. rewrite Hr in E. inversion E; subst. auto.
+      - unfold TI, t; cbn. split; [reflexivity|split; [exact Ho|split; [intros []|exact I]]]. }
+    destruct (sinv_solo c i (r_name m) k t s H0) as (_ & _ & _ & Hout & _). exact Hout.
+  Qed.
+
+
+  (* after a delete that failed halfway (index entry already released, record still there) a fault-free retry finishes
+     the job: 6 storage calls, success, the record is gone (the other half is delete_alone) *)
+  Lemma delete_retry_completes c i m rest h o s :
+    recs s i = Some m -> r_client m = c -> idx s (r_name m) = None -> rguard s i = false ->
+    let t := {| cl := c; ops := ODelete (Abs i) :: rest; faults := []; pc := Idle; held := h; out := o |} in
+    let '(t', s') := solo 6 t s in
+    t' = {| cl := c; ops := rest; faults := []; pc := Idle; held := h; out := RDeleted :: o |} /\
+    idx s' (r_name m) = None /\ recs s' i = None /\ rguard s' i = false.
+  Proof.
+    intros Hr Hc Hi Hg. cbn zeta.
+    unfold solo, dstep.
+    unfold decide; cbn.
+    repeat (progress (rewrite ?Hr, ?Hc, ?Hg, ?Hi, ?N.eqb_refl, ?Z.eqb_refl; cbn)).
+    split; [reflexivity|]. split; [reflexivity|]. split; [apply upd_n_same|apply upd_n_same].
+  Qed.
 End Solo.
+
+(* ---- a storage fault between the two removal steps ------------------------------------------------------------------
+   owner: create a, delete (the Get of the index inside the removal fails), delete again; then client 2 claims a. *)
+Definition fault_threads (k : nat) : list thr :=
+  [ init_thr 1 [OCreate nm_a nm_base 11; ODelete (Mine 0); ODelete (Mine 0)] (repeat false (5 + k) ++ [true]);
+    init_thr 2 [OCreate nm_a nm_base 22] [];
+    init_thr 9 [OLookup host_a 5] [] ].
+Definition fault_sched : list nat := (repeat 0 25 ++ repeat 1 5 ++ repeat 2 2)%nat.
+
+(* record deleted BEFORE the index entry (fault on the 4th call of the removal = Get index): the record is gone, the
+   index entry stays; the retry finds no record and reports success; the name is owned by a ghost — client 2 is refused *)
+Lemma record_before_index_refuted :
+  let s := drun true true true false none_legacy none_legacy empty_store (fault_threads 3) fault_sched in
+  map out (snd s) = [[RDeleted; RErr EStorage; RCreated 1]; [RErr EExists]; [RErr ENotFound]] /\
+  idx (fst s) host_a = Some 1 /\ recs (fst s) 1 = None.
+Proof. vm_compute. repeat split; reflexivity. Qed.
+
+(* the code's order (index entry first), same fault position in the removal (now the Delete of the index): the failed delete
+   leaves the record, the retry finishes it, client 2 claims the name and is routed *)
+Lemma index_before_record_run :
+  let s := drun true true true true none_legacy none_legacy empty_store (fault_threads 3) fault_sched in
+  map out (snd s) = [[RDeleted; RErr EStorage; RCreated 1]; [RCreated 2]; [RRouted 1 host_a 2 2 22]] /\
+  idx (fst s) host_a = Some 2 /\ recs (fst s) 1 = None.
+Proof. vm_compute. repeat split; reflexivity. Qed.
